@@ -40,7 +40,8 @@ EXPRS = ['1', '0', '-1', '2.5', '1E30', '"s"', '""', 'i%', 'l&', 's!', 'd#', 't$
          'i% AND t$', 'i% = t$', 't$ = t$', 'r = r2', 'arr = arr', '1 / 0', '1 \\ 0', '2 ^ -1', '2 ^ 0.5', '32767 + 1', '99999 * 99999', '1E38 * 1E38', 'LEN(t$)', 'LEN(1)', 'LEN()', 'LEN(t$, 1)', 'ASC(1)', 'CHR$("a")', 'CHR$(300)',
          'MID$(t$, 1)', 'MID$(t$)', 'MID$(1, 1, 1)', 'LEFT$(t$, "a")', 'INSTR(t$, t$)', 'INSTR(1, t$, t$)', 'INSTR(t$)', 'UBOUND(arr)', 'UBOUND(i%)', 'UBOUND(arr, 5)', 'LBOUND(r)', 'VAL(1)', 'VAL(t$)', 'STR$("a")', 'STR$(1)',
          'INT("a")', 'ABS(t$)', 'SGN(r)', 'CINT(t$)', 'CLNG(1E30)', 'RND', 'RND(1)', 'RND("a")', 'TIMER', 'TIMER(1)', 'INKEY$', 'PEEK(1)', 'PEEK(t$)', 'SPACE$(t$)', 'STRING$(1)', 'STRING$(2, t$)', 'STRING$(2, 65)',
-         'LCASE$(1)', 'UCASE$(t$)', 'LTRIM$(1)', 'ERR', 'ERL', 'ERR(1)', 'i%%', 'i%.a', 't$(1)', '1 2', '', ')', '(', ',', 'THEN', 'TO', 'i% +', '+', '"unterminated']
+         'LCASE$(1)', 'UCASE$(t$)', 'LTRIM$(1)', 'ERR', 'ERL', 'ERR(1)', 'i%%', 'i%.a', 't$(1)', '1 2', '', ')', '(', ',', 'THEN', 'TO', 'i% +', '+', '"unterminated', '"caf\u00e9"', '1E38 * 1E38 - 1E38 * 1E38', '0 * (1E38 * 1E38)', '1 / 0', '1D308 * 10#',
+         '-32768', '-32768%', '32768', '2147483648', '-2147483648', '&H8000', '&HFFFFFFFF', '&H100000000', '&O777777', '.', '1.', '.5E', '1E', '5#!']
 LVS = ['i%', 'l&', 's!', 'd#', 't$', 'r', 'r.a', 'r.b', 'r.zz', 'arr', 'arr(1)', 'arr(1, 2)', 'arr(t$)', 'sarr$(1)', 'm2(1, 1)', 'ra(1)', 'ra(1).a', 'ra(1).b', 'ra.a', 'undef', 'undef(1)', 'f1%', 'p0', 'lbl', '1', '"s"', 'i% + 1', '', 'RND', 'TIMER', 'ERR', 'LEN(t$)']
 LABELS = ['lbl', 'nodata', 'nosuch', '10', '99999', '0', '1', '-1', 'p0', 'i%', '', '"l"']
 TEMPLATES = [
